@@ -20,6 +20,21 @@ CHECKS = {
    "All 3.4 M trees of depth <= 2 over the 20 operators (quick: 4 leaves, thorough: 5 leaves + all depth-3 operator chains) are printed by the library, read back by an independent parser implementing the grammar's precedence ladder, rebuilt, and evaluated by the library next to the original on 49 real rows; 15 k queries of all four kinds are compared structurally.",
    "Trusted: the precedence parser in val.rs (most permissive reading of msiquery.pest). Identifiers/strings needing escapes are out of scope, as in the property.",
    "DESIGN.md §4 C19"),
+ "C14": (E2, "model_checking",
+   "exhaustive enumeration of all Unicode scalar values x 26 code pages, all 1-/2-byte (and lead-restricted 3-byte) sequences, buffer-boundary strings, identifier space; reference = the named encodings by WHATWG label",
+   "Every (character, code page) pair is encoded, decoded back and compared with the encoding the documentation names; every short byte sequence is decoded and compared; strings of every length around the 1024-byte internal buffer are checked for the concatenation law; from_id is swept over the identifier space (all 2^32 in the thorough tier). Complete for the per-character laws.",
+   "Trusted: encoding_rs addressed by label without BOM handling as the meaning of each code page's name; for 28591 both true Latin-1 and the WHATWG reading are accepted. 21 (page, character) pairs are known findings (dependency encoder quirks).",
+   "DESIGN.md §4 C14"),
+ "C17": (E2, "model_checking",
+   "exhaustive enumeration of all 65,536 language codes and of bounded tag strings",
+   "All codes are checked for code preservation, total tag lookup, tag round trip and per-primary-id structure; every tag in the image of tag() must map to the smallest code carrying it; 48 Windows identifier/tag pairs; all tag strings ll, lll, ll-RR, lll-RR over the tier's alphabets (thorough: full a-z / A-Z, 12.4 M strings), every known language x all 676 regions in both tiers.",
+   "Trusted: the list of 48 well-known identifiers (MS-LCID); 'known language' is derived from the image of tag(), not from the private table.",
+   "DESIGN.md §4 C17"),
+ "C18": (E2, "model_checking",
+   "exhaustive enumeration of tick neighbourhoods around 71 anchors x sub-tick nanoseconds, platform extremes, regular lattice; in memory and through save/reopen",
+   "Every tick within the radius of every anchor (1601, 1970, tick maximum, every power of two) with every sub-tick nanosecond offset is set, read, set again and compared for drift < 100 ns, idempotence, monotonicity and saturation; the same through save + reopen for the anchor sets; a regular lattice covers the range in between.",
+   "Trusted: i128 nanosecond arithmetic in c18.rs. x86-64 Linux SystemTime only. The property's 'random times' are replaced by the lattice (piecewise-linear argument in DESIGN.md).",
+   "DESIGN.md §4 C18"),
 }
 PENDING_REASON = "check not built yet (work in progress; DESIGN.md names the planned engine)"
 
